@@ -8,6 +8,7 @@ import TsV.Model.Topsort
 import TsV.Model.Encode
 import TsV.Model.Generate
 import TsV.Model.Writer
+import TsV.Model.Config
 /-!
 # `tsmodel`: one s-expression request per line in, one JSON answer per line out.
 The driver only decodes, calls the model's executable definitions and prints.
@@ -218,6 +219,21 @@ def handle (st : DriverState) (req : Sx) : DriverState × J :=
               ("actions", .arr (acts.map fun a => .str (match a with
                 | .skippedSame => "skipped-same" | .skippedEmpty => "skipped-empty" | .wrote => "wrote").toList))]
       | _, _, _ => bad "writer-run")
+  | .list [.atom "config", file, .list cli, goFlag] =>
+    (st, match (match file with
+            | .atom "none" => some none
+            | .list [.str a, .str b, .str c, .str d, .str e, .str f, .str g] =>
+              some (some (({ swiftPrefix := a, kotlinPrefix := b, kotlinPackage := c, kotlinModule := d,
+                             scalaPackage := e, scalaModule := f, goPackage := g } : Config.Shared), ()))
+            | _ => none), cli.mapM optStr, goFlag.asBool? with
+      | some fileCfg, some [a, b, c, d, e, f, g], some isGo =>
+        let o : Config.Cli := { swiftPrefix := a, kotlinPrefix := b, javaPackage := c, kotlinModule := d,
+                                scalaPackage := e, scalaModule := f, goPackage := g, langIsGo := isGo }
+        (match Config.overrideConfiguration (Config.loadConfig () fileCfg) o with
+        | some c => .obj [("ok", J.ofStrs [c.shared.swiftPrefix, c.shared.kotlinPrefix, c.shared.kotlinPackage,
+            c.shared.kotlinModule, c.shared.scalaPackage, c.shared.scalaModule, c.shared.goPackage])]
+        | none => .obj [("err", .str "go-package-required".toList)])
+      | _, _, _ => bad "config")
   | .list [.atom "tryfrom", t] =>
     (st, match Decode.ty t with
       | some ty => jOutcome Encode.ty (RustTypes.tryFrom ty)
